@@ -22,6 +22,20 @@ RUN_FN = "run_case"
 CHECK_FN = "check_case"
 INPUT_TYPE = "case"
 
+
+
+def pre_build():
+    """regenerate Gen/C17_src.v (constants + statement structure of the handshake functions) from the
+    working tree; raises (fails closed) when a function no longer has the structure the model was written from"""
+    import importlib
+    import sys
+    from harness.framework import REPO, COQ
+    sys.path.insert(0, os.path.join(os.path.dirname(COQ), "translators"))
+    import c17_src
+    importlib.reload(c17_src)
+    c17_src.emit(REPO, os.path.join(COQ, "Gen", "C17_src.v"))
+
+
 GUID = b"258EAFA5-E914-47DA-95CA-C5AB0DC85B11"
 SRV_FIELDS = ["upgrade", "connection", "origin", "sec_origin", "host", "key", "version", "protocol", "extensions"]
 SRV_NAMES = {
@@ -255,8 +269,88 @@ def run_client(case):
     return [rh["sec-websocket-key"][0], one("sec-websocket-protocol"), one("sec-websocket-extensions"), outcome, direct]
 
 
+def run_loop(case):
+    """The real client (websocket_connect) against the real server (HTTPServer + WebSocketHandler):
+    the bytes each side writes are carried to the other side's FakeIOStream."""
+    quiet()
+    from harness.fake_iostream import FakeIOStream, EOF
+    from harness.vclock import run_virtual, settle
+    import tornado.websocket as W
+    from tornado.tcpclient import TCPClient
+    from tornado import httpclient
+    from tornado.httpserver import HTTPServer
+    from tornado.web import Application
+
+    seed = case["seed"].encode("latin-1")
+    policy = make_policy(case["pol"])
+    scomp = case["scomp"]
+    opened = []
+
+    class H(W.WebSocketHandler):
+        def get_compression_options(self):
+            return {} if scomp else None
+
+        def select_subprotocol(self, sp):
+            return policy(sp)
+
+        def open(self):
+            opened.append(self.selected_subprotocol)
+
+    async def scenario(loop):
+        cs, ss = FakeIOStream(), FakeIOStream()
+
+        async def fake_connect(self, host, port, **kw):
+            return cs
+
+        orig_connect, orig_ur = TCPClient.connect, os.urandom
+        TCPClient.connect = fake_connect
+        os.urandom = lambda n: seed
+        try:
+            try:
+                fut = W.websocket_connect(httpclient.HTTPRequest("ws://%s/ws" % case["host"]),
+                                          compression_options=({} if case["comp"] else None), subprotocols=case["subs"])
+            finally:
+                os.urandom = orig_ur
+            await settle(10)
+            req = bytes(cs.sent)
+            HTTPServer(Application([("/ws", H)])).handle_stream(ss, ("1.2.3.4", 5))
+            ss.feed(req)
+            await settle(10)
+            resp = bytes(ss.sent)
+            cs.feed(resp)
+            await settle(12)
+            if not fut.done():
+                r = G.Tag("Pending")
+            else:
+                try:
+                    c = fut.result()
+                    r = [G.Tag("Resolved"), c.selected_subprotocol, c.protocol._compressor is not None]
+                    c.close()
+                except Exception as e:
+                    r = G.Tag(type(e).__name__)
+            cs.feed(EOF)
+            ss.feed(EOF)
+            await settle(10)
+            return resp, r
+        finally:
+            TCPClient.connect = orig_connect
+
+    resp, outcome = run_virtual(scenario)
+    if not resp:
+        return [G.Tag("NoResponse")]
+    status, hs, body = parse_http(resp)
+    if status == 101:
+        if len(opened) != 1:
+            return [G.Tag("Bad101"), len(opened)]
+        ext = hs.get("sec-websocket-extensions")
+        return [101, opened[0] or None, None if ext is None else ",".join(ext), outcome]
+    if opened:
+        return [G.Tag("OpenedWithout101"), status]
+    return [status, None, None, outcome]
+
+
 def run_impl(case):
-    return run_server(case) if case["t"] == "s" else run_client(case)
+    return {"s": run_server, "c": run_client, "l": run_loop}[case["t"]](case)
 
 
 # --------------------------------------------------------------------------
@@ -292,9 +386,12 @@ def coq_input(case):
     if case["t"] == "s":
         hs = " ".join(gostr(hval(case, f)) for f in SRV_FIELDS)
         return "(CaseServer %s (mkApp %s %s) (mkReq %s))" % (G.gbool(brk_of(case)), G.gbool(case["comp"]), gpolicy(case["pol"]), hs)
-    hs = " ".join(gostr(hval(case, f)) for f in CLI_FIELDS)
     subs = case["subs"]
     gs = "(@None (list str))" if subs is None else "(Some %s)" % G.glist([G.gbytes(x) for x in subs], "str")
+    if case["t"] == "l":
+        return "(CaseLoop %s %s %s %s (mkApp %s %s))" % (G.gbytes(case["seed"]), G.gbool(case["comp"]), gs, G.gbytes(case["host"]),
+                                                        G.gbool(case["scomp"]), gpolicy(case["pol"]))
+    hs = " ".join(gostr(hval(case, f)) for f in CLI_FIELDS)
     return "(CaseClient %s %s %s %s (mkResp %s))" % (G.gbytes(case["seed"]), G.gbool(case["comp"]), gs, G.gn(case["status"]), hs)
 
 
@@ -350,6 +447,16 @@ def py_check(case, o):
         if ext is not None and not (case["comp"] and deflate_offered(case) and ext.split(";")[0].strip() == "permessage-deflate"):
             return False
         return True
+    if case["t"] == "l":
+        if not isinstance(o, list) or len(o) != 4 or not isinstance(o[0], int):
+            return False
+        status, ssub, sext, outcome = o
+        offered = [x.strip() for y in (case["subs"] or []) for x in y.split(",")]
+        if isinstance(outcome, list):
+            _, csub, d = outcome
+            return (status == 101 and csub == ssub and (csub is None or csub in offered)
+                    and d == (sext is not None) and (not d or (case["comp"] and case["scomp"])))
+        return status != 101 and isinstance(outcome, G.Tag) and outcome in ("HTTPClientError", "WebSocketError", "StreamClosedError")
     if not isinstance(o, list) or len(o) != 5:
         return False
     key, _, _, outcome, _ = o
@@ -369,6 +476,8 @@ def py_check(case, o):
 
 
 def signature(case, o):
+    if case["t"] == "l":
+        return "loop"
     if case["t"] == "s":
         if isinstance(o, list) and o and o[0] == 500 and should_upgrade(case) and app_ok(case):
             return "server-negotiation-valueerror-500"
@@ -492,6 +601,35 @@ def mk_client(seed, h, comp=False, subs=None, status=101, style=0):
         for v in vs:
             assert wire_ok(v), v
     return {"t": "c", "seed": bytes(seed).decode("latin-1"), "comp": comp, "subs": subs, "status": status, "style": style, "h": h}
+
+
+def mk_loop(seed, comp=False, subs=None, host="example.com", scomp=False, pol=("none",)):
+    for x in subs or []:
+        assert wire_ok(x), x
+    return {"t": "l", "seed": bytes(seed).decode("latin-1"), "comp": comp, "subs": subs, "host": host, "scomp": scomp, "pol": list(pol), "h": {}}
+
+
+LOOP_SUBS = [None, [], ["chat"], ["chat", "superchat"], ["superchat", "chat"], ["a", "b", "c"], ["chat, superchat"], ["Chat"],
+             ["chat", ""], ["", "chat"], ["v1.proto-x_y"], ["ch\xe4t", "chat"], ["a b", "chat"], ["chat", "chat"]]
+LOOP_HOSTS = ["example.com", "example.com:8080", "[::1]:9", "LOCALHOST"]
+
+
+def enum_loop(tier):
+    out = []
+    for subs in LOOP_SUBS:
+        for pol in POLICIES:
+            for comp, scomp in ((False, False), (True, True)) if tier != "thorough" else ((False, False), (True, False), (False, True), (True, True)):
+                out.append(mk_loop(SEED0, comp, subs, "example.com", scomp, pol))
+    for host in LOOP_HOSTS:
+        for comp in (False, True):
+            for scomp in (False, True):
+                out.append(mk_loop(SEED0, comp, ["chat"], host, scomp, ("first",)))
+    return out
+
+
+def gen_loop_case(rng):
+    return mk_loop(bytes(rng.randrange(256) for _ in range(16)), rng.random() < 0.5, rng.choice(LOOP_SUBS), rng.choice(LOOP_HOSTS),
+                   rng.random() < 0.5, rng.choice(POLICIES))
 
 
 def with_(base, **kw):
@@ -720,12 +858,13 @@ def enum_client(tier):
 
 
 def gen_cases(rng, tier):
-    out = enum_server(tier) + enum_client(tier)
+    out = enum_server(tier) + enum_client(tier) + enum_loop(tier)
     ns, nc = (500, 250) if tier == "quick" else (3000, 1500)
     if tier == "search":
         ns, nc = 1200, 600
     out += [gen_server_case(rng) for _ in range(ns)]
     out += [gen_client_case(rng) for _ in range(nc)]
+    out += [gen_loop_case(rng) for _ in range(nc // 3)]
     return out
 
 
@@ -736,12 +875,17 @@ HAS_SEARCH_TIER = True
 # evidence helpers
 # --------------------------------------------------------------------------
 def nontrivial(case, o):
+    if case["t"] == "l":
+        return ("l", case["seed"], case["comp"], str(case["subs"]), case["host"], case["scomp"], str(case["pol"]))
     return (case["t"], case["comp"], str(case.get("pol")), str(case.get("subs")), case.get("status"),
             tuple(sorted((k, tuple(v)) for k, v in case["h"].items())), case.get("seed"))
 
 
 def classify(case, o):
-    yield "side=" + ("server" if case["t"] == "s" else "client")
+    yield "side=" + {"s": "server", "c": "client", "l": "loop"}[case["t"]]
+    if case["t"] == "l":
+        yield "loop:status=%s connect=%s" % (o[0] if isinstance(o, list) else o, (o[3][0] if isinstance(o[3], list) else o[3]) if isinstance(o, list) and len(o) == 4 else "?")
+        return
     if case["t"] == "s":
         yield "status=%s" % (o[0] if isinstance(o, list) else o)
         if isinstance(o, list) and o[0] == 101:
@@ -756,6 +900,17 @@ def classify(case, o):
 
 
 def shrink(case):
+    if case["t"] == "l":
+        if case["subs"]:
+            yield dict(case, subs=case["subs"][:-1])
+            yield dict(case, subs=case["subs"][1:])
+        if case["pol"] != ["none"]:
+            yield dict(case, pol=["none"])
+        if case["comp"]:
+            yield dict(case, comp=False)
+        if case["scomp"]:
+            yield dict(case, scomp=False)
+        return
     h = case["h"]
     base = BASE if case["t"] == "s" else {"upgrade": ["websocket"], "connection": ["Upgrade"]}
     for f in list(h):
@@ -782,6 +937,7 @@ def shrink(case):
 
 
 TRUSTED_BASE = [
+    "translators/c17_src.py: ast.unparse of each handshake function must full-match a template whose only holes are literals; it supplies constants and structure flags (Gen/C17_src.v), the semantics of the statements is the hand-written model's",
     "C43.Model definitions of httputil._parse_header/_encode_header, str.strip/lower/split (tied to /repo by the C43 correspondence as well as this one)",
     "urllib.parse.urlsplit (Python 3.12.1) netloc extraction is modelled by hand; _check_bracketed_host (ipaddress) is an external function whose verdict is an input of the case; _checknetloc (NFKC) cannot raise for code points < 256 (checked exhaustively per character)",
     "hashlib.sha1 is modelled by a Gallina SHA-1 (checked against the RFC 6455 sample and, through the Accept header, on every 101 case); theorems hold for an arbitrary hash function",
